@@ -488,3 +488,270 @@ func TestDeclaredVsSpecWidths(t *testing.T) {
 		return []vf.Finding{vf.F(c.Struct+"."+c.Field, kind, "declared type is %d bytes wide, MS-CIFS gives %d bytes", c.Decl, c.Spec)}
 	}, func(c widthCase) bool { return c.Spec >= 2 })
 }
+
+// ---- widths on the wire: a field owns exactly as many bytes as its type is wide --------------------------------
+//
+// Marking (encode-vs-ref) sees the bytes that change with the field's value; a USHORT emitted as four
+// bytes with two constant ones is invisible to it. What gives it away is the next field: fields that are
+// adjacent in the declaration (count fields in between are accounted for by their type widths) and lie
+// in the same block must be adjacent on the wire, and the first parameter field starts right after the
+// word count (after the 4-byte AndX block in AndX structures).
+
+type layoutCase struct {
+	Struct string                     `json:"struct"`
+	Fields map[string]json.RawMessage `json:"fields"`
+}
+
+func checkWireWidths(c layoutCase) []vf.Finding {
+	e, ok := smbgen.ByName(c.Struct)
+	if !ok {
+		return []vf.Finding{vf.F("harness", "bad-case", "unknown structure %s", c.Struct)}
+	}
+	slots, paramEnd := smbgen.Layout(e, c.Fields)
+	var fs []vf.Finding
+	if len(slots) > 0 && paramEnd > 1 {
+		first := slots[0]
+		cmd := smbgen.New(e)
+		own := smbgen.OwnFields(cmd)
+		want := 1
+		if e.AndX {
+			want = 5
+		}
+		if len(own) > 0 && own[0].Name == first.Name && first.Start < paramEnd && first.Start != want {
+			fs = append(fs, vf.F(c.Struct+"."+first.Name, "first-parameter-field-not-at-block-start", "starts at %d, the parameter words begin at %d", first.Start, want))
+		}
+	}
+	for i := 1; i < len(slots); i++ {
+		a, b := slots[i-1], slots[i]
+		if !b.Chain || !smbgen.SameBlock(a.Start, b.Start, paramEnd) || b.Start < a.Start+a.Width {
+			continue // order and overlap are C04's subject
+		}
+		if extra := b.Start - (a.Start + a.Width + b.Between); extra != 0 {
+			fs = append(fs, vf.F(c.Struct+"."+a.Name, "occupies-more-bytes-than-its-type", "%d-byte type at %d, next field %s at %d (%d bytes of count fields between): %d bytes unaccounted for", a.Width, a.Start, b.Name, b.Start, b.Between, extra))
+		}
+	}
+	return fs
+}
+
+func TestWireWidths(t *testing.T) {
+	s := vf.Begin(t, P, "widths-on-wire")
+	names := smbgen.Names()
+	per := vf.N(3, 40)
+	idx := 0
+	vf.Rapid(s, len(names)*per, func(t *rapid.T) layoutCase {
+		name := names[(idx/per)%len(names)]
+		idx++
+		e, _ := smbgen.ByName(name)
+		cmd := smbgen.New(e)
+		smbgen.Fill(t, cmd, smbgen.Options{MaxBytes: 8})
+		return layoutCase{name, smbgen.Snapshot(cmd)}
+	}, checkWireWidths, func(c layoutCase) bool { return len(c.Fields) >= 2 })
+}
+
+// ---- integers nested in wire types and in slices -----------------------------------------------------------
+//
+// encode-vs-ref marks a command's own fixed-width fields. Integers that sit one level down – inside the
+// elements of LockingAndxRequest.Locks/Unlocks, inside directory-information entries, in the
+// TransactionRequest.Setup word array, in the packed date word – are marked here, at the level of the type
+// that encodes them, with the same method: pattern vs complement, diff, compare the slot with little-endian.
+
+type nestedCase struct {
+	Type    string `json:"type"`
+	Field   string `json:"field"`
+	Pattern vf.Hex `json:"pattern"`
+	// Base: generated values for the other fields of the enclosing command (Setup case only)
+	Base map[string]json.RawMessage `json:"base,omitempty"`
+}
+
+type nestedType struct {
+	name string
+	mk   func() interface{} // pointer to a value that encodes (valid enough for Marshal)
+}
+
+func nestedTypes() []nestedType {
+	return []nestedType{
+		{"LOCKING_ANDX_RANGE32", func() interface{} { return &types.LOCKING_ANDX_RANGE32{} }},
+		{"LOCKING_ANDX_RANGE64", func() interface{} { return &types.LOCKING_ANDX_RANGE64{} }},
+		{"SMB_DIRECTORY_INFORMATION", func() interface{} {
+			d := types.NewSMB_DIRECTORY_INFORMATION()
+			return d
+		}},
+	}
+}
+
+func intFields(v reflect.Value) (out []string) {
+	for i := 0; i < v.NumField(); i++ {
+		f := v.Type().Field(i)
+		if !f.IsExported() {
+			continue
+		}
+		switch f.Type.Kind() {
+		case reflect.Uint16, reflect.Uint32, reflect.Uint64, reflect.Int16, reflect.Int32, reflect.Int64:
+			out = append(out, f.Name)
+		}
+	}
+	return
+}
+
+func setInt(f reflect.Value, le []byte) {
+	var x uint64
+	for i := len(le) - 1; i >= 0; i-- {
+		x = x<<8 | uint64(le[i])
+	}
+	if f.Kind() >= reflect.Int && f.Kind() <= reflect.Int64 {
+		f.SetInt(int64(x))
+	} else {
+		f.SetUint(x)
+	}
+}
+
+func marshalAny(v interface{}) (b []byte, err error) {
+	defer func() {
+		if r := recover(); r != nil {
+			err = fmt.Errorf("panic: %v", r)
+		}
+	}()
+	return v.(interface{ Marshal() ([]byte, error) }).Marshal()
+}
+
+func checkNested(c nestedCase) []vf.Finding {
+	subject := c.Type + "." + c.Field
+	if c.Type == "TransactionRequest.Setup" {
+		// k setup words, each with its own two distinct bytes
+		e, _ := smbgen.ByName("TransactionRequest")
+		k := len(c.Pattern) / 2
+		enc := func(p []byte) ([]byte, error) {
+			cmd := smbgen.New(e)
+			smbgen.Restore(cmd, c.Base)
+			rv := reflect.ValueOf(cmd).Elem()
+			sl := reflect.MakeSlice(rv.FieldByName("Setup").Type(), k, k)
+			for i := 0; i < k; i++ {
+				sl.Index(i).SetUint(uint64(p[2*i]) | uint64(p[2*i+1])<<8)
+			}
+			rv.FieldByName("Setup").Set(sl)
+			rv.FieldByName("SetupCount").SetUint(uint64(k))
+			return marshalAny(cmd)
+		}
+		inv := make([]byte, len(c.Pattern))
+		for i := range inv {
+			inv[i] = ^c.Pattern[i]
+		}
+		e1, err1 := enc(c.Pattern)
+		e2, err2 := enc(inv)
+		if err1 != nil || err2 != nil || len(e1) != len(e2) {
+			return []vf.Finding{vf.F(subject, "marshal-error", "%v / %v (%d vs %d bytes)", err1, err2, len(e1), len(e2))}
+		}
+		lo, hi := -1, -1
+		for i := range e1 {
+			if e1[i] != e2[i] {
+				if lo < 0 {
+					lo = i
+				}
+				hi = i
+			}
+		}
+		if lo < 0 || hi-lo+1 != 2*k {
+			return []vf.Finding{vf.F(subject, "wrong-width", "%d setup words change %d bytes", k, hi-lo+1)}
+		}
+		got := e1[lo : hi+1]
+		if bytes.Equal(got, c.Pattern[:2*k]) {
+			return nil
+		}
+		if bytes.Equal(got, reversedPerElement(c.Pattern[:2*k], 2)) {
+			return []vf.Finding{vf.F(subject, "byte-reversed-in-own-slot", "words %x emitted as %x", []byte(c.Pattern[:2*k]), got)}
+		}
+		return []vf.Finding{vf.F(subject, "other-encoding", "emitted %x, MS-CIFS little-endian is %x", got, []byte(c.Pattern[:2*k]))}
+	}
+	if c.Type == "SMB_DATE" {
+		// the packed word (year-1980)<<9 | month<<5 | day, little-endian
+		y, m, d := 1980+int(c.Pattern[0]&0x7F), int(c.Pattern[1]&0x0F), int(c.Pattern[2]&0x1F)
+		v := types.NewSMB_DATEFromDate(y, m, d)
+		got, err := v.Marshal()
+		w := uint16(y-1980)<<9 | uint16(m)<<5 | uint16(d)
+		want := []byte{byte(w), byte(w >> 8)}
+		if err != nil || !bytes.Equal(got, want) {
+			kind := "other-encoding"
+			if len(got) == 2 && got[0] == want[1] && got[1] == want[0] {
+				kind = "byte-reversed-in-own-slot"
+			}
+			return []vf.Finding{vf.F("SMB_DATE", kind, "%04d-%02d-%02d emitted as %x (err %v), MS-CIFS 2.2.1.4.1 gives %x", y, m, d, got, err, want)}
+		}
+		return nil
+	}
+	var nt *nestedType
+	for i, t := range nestedTypes() {
+		if t.name == c.Type {
+			nt = &nestedTypes()[i]
+		}
+	}
+	if nt == nil {
+		return []vf.Finding{vf.F("harness", "bad-case", "unknown type %s", c.Type)}
+	}
+	v1, v2 := nt.mk(), nt.mk()
+	f1, f2 := reflect.ValueOf(v1).Elem().FieldByName(c.Field), reflect.ValueOf(v2).Elem().FieldByName(c.Field)
+	w := int(f1.Type().Size())
+	le := []byte(c.Pattern[:w])
+	inv := make([]byte, w)
+	for i := range inv {
+		inv[i] = ^le[i]
+	}
+	setInt(f1, le)
+	setInt(f2, inv)
+	e1, err1 := marshalAny(v1)
+	e2, err2 := marshalAny(v2)
+	if err1 != nil || err2 != nil || len(e1) != len(e2) {
+		return []vf.Finding{vf.F(subject, "marshal-error", "%v / %v (%d vs %d bytes)", err1, err2, len(e1), len(e2))}
+	}
+	lo, hi := -1, -1
+	for i := range e1 {
+		if e1[i] != e2[i] {
+			if lo < 0 {
+				lo = i
+			}
+			hi = i
+		}
+	}
+	if lo < 0 {
+		return []vf.Finding{vf.F(subject, "field-not-emitted", "changing every byte of the field leaves the %d-byte encoding unchanged", len(e1))}
+	}
+	if hi-lo+1 != w {
+		return []vf.Finding{vf.F(subject, "wrong-width", "slot of %d bytes for a %d-byte type", hi-lo+1, w)}
+	}
+	got := e1[lo : hi+1]
+	if bytes.Equal(got, le) {
+		return nil
+	}
+	if bytes.Equal(got, reversedPerElement(le, w)) {
+		return []vf.Finding{vf.F(subject, "byte-reversed-in-own-slot", "pattern %x emitted as %x", le, got)}
+	}
+	return []vf.Finding{vf.F(subject, "other-encoding", "emitted %x, MS-CIFS little-endian is %x", got, le)}
+}
+
+func TestNestedIntegers(t *testing.T) {
+	s := vf.Begin(t, P, "nested-integers")
+	var targets [][2]string
+	for _, nt := range nestedTypes() {
+		for _, f := range intFields(reflect.ValueOf(nt.mk()).Elem()) {
+			targets = append(targets, [2]string{nt.name, f})
+		}
+	}
+	targets = append(targets, [2]string{"TransactionRequest.Setup", "words"}, [2]string{"SMB_DATE", "packed"})
+	s.Note("%d nested integer targets: %v", len(targets), targets)
+	if len(targets) < 10 {
+		t.Fatalf("INFRA: only %d nested integer fields found", len(targets))
+	}
+	per := vf.N(40, 600)
+	idx := 0
+	vf.Rapid(s, len(targets)*per, func(t *rapid.T) nestedCase {
+		tg := targets[(idx/per)%len(targets)]
+		idx++
+		c := nestedCase{Type: tg[0], Field: tg[1], Pattern: rapid.SliceOfNDistinct(rapid.ByteRange(1, 254), 8, 8, rapid.ID[byte]).Draw(t, "pattern")}
+		if c.Type == "TransactionRequest.Setup" {
+			e, _ := smbgen.ByName("TransactionRequest")
+			cmd := smbgen.New(e)
+			smbgen.Fill(t, cmd, smbgen.Options{MaxBytes: 8})
+			c.Base = smbgen.Snapshot(cmd)
+		}
+		return c
+	}, checkNested, func(c nestedCase) bool { return true })
+}
